@@ -199,6 +199,9 @@ func (s *StorageClient) Get(key string) (*mc.Item, error) {
 func (s *StorageClient) GetMulti(keys []string) (map[string]*mc.Item, error) {
 	ret := make(map[string]*mc.Item)
 	for _, key := range keys {
+		if _, ok := ret[key]; ok {
+			continue // asked twice: the second copy would replace (and leak) the first
+		}
 		item, _ := s.Get(key)
 		if item != nil {
 			ret[key] = item
